@@ -138,6 +138,33 @@ class WProxy:
             pass
 
 
+class BProxy(WProxy):
+    """binary-mode writer on one of the watched files (e.g. shutil.copyfile when a rename across file systems falls back to copying)"""
+
+    def write(self, data):
+        self._buf.append(bytes(data))
+        return len(data)
+
+    def fileno(self):
+        raise OSError("no fast copy through the stepping proxy")
+
+    def _out(self):
+        data = b"".join(self._buf)
+        self._buf = []
+        if not data:
+            return
+        h = len(data) // 2 if len(data) >= 32 else len(data)
+        for part, tag in ((data[:h], "1"), (data[h:], "2")):
+            if not part and tag == "1":
+                continue
+            token()
+            self._f.write(part)
+            self._f.flush()
+            report("write", self._c, tag if len(data) >= 32 else "2")
+            if len(data) < 32:
+                break
+
+
 class RProxy:
     def __init__(self, f, c):
         self._f, self._c = f, c
@@ -160,6 +187,15 @@ class RProxy:
 
 def v_open(file, mode="r", *a, **kw):
     c = cls(file) if isinstance(file, (str, os.PathLike)) else None
+    if c is not None and c != "dir" and "b" in mode and ("w" in mode or "a" in mode or "+" in mode or "x" in mode):
+        token()
+        try:
+            f = _open(file, mode, *a, **kw)
+        except OSError as e:
+            report("open_w", c, type(e).__name__)
+            raise
+        report("open_w" if "w" in mode else "open_rw", c, "ok")
+        return BProxy(f, c)
     if c is None or c == "dir" or "b" in mode:
         return _open(file, mode, *a, **kw)
     if "w" in mode or "a" in mode or "+" in mode or "x" in mode:
